@@ -210,9 +210,10 @@ class BlockParser:
 		while index < len(text):
 			if text[index] in other_tokens:
 				other_index = other_tokens.find(text[index])
+				in_quote = len(other_closes) > 0 and other_closes[-1] in '"\''
 				if len(other_closes) > 0 and other_closes[-1] == other_tokens[other_index]:
 					other_closes.pop()
-				elif other_index % 2 == 0:
+				elif not in_quote and other_index % 2 == 0:
 					other_closes.append(other_tokens[other_index + 1])
 
 			index += 1
